@@ -56,12 +56,25 @@ theorem allToRes_gather (a : Nat) (idx : List Nat) (m : Mode) : AllToRes (gather
 theorem allToRes_singleton_res (x : Instr) (h : ∀ d, x.dest = some d → d = .res) : AllToRes [x] :=
   allToRes_cons h allToRes_nil
 
+theorem callAt_dest (rv : Bool) (a i : Nat) (d : Dest) : (callAt rv a i d).dest = some d := by
+  unfold callAt; cases rv <;> rfl
+
+theorem allToRes_zipCall2 (rv0 rv1 : Bool) (n : Nat) : AllToRes (zipCall2 rv0 rv1 n .res) := by
+  intro x hx d hd
+  obtain ⟨i, _, rfl | rfl⟩ := mem_zipCall2 hx <;> (rw [callAt_dest] at hd; cases hd; rfl)
+
+theorem allToRes_freshRange (n : Nat) : AllToRes (freshRange n .res) :=
+  allToRes_map _ _ (fun i d hd => by cases hd; rfl)
+
+theorem allToRes_callAt (rv : Bool) (a i : Nat) : AllToRes [callAt rv a i .res] :=
+  allToRes_singleton_res _ (fun d hd => by rw [callAt_dest] at hd; cases hd; rfl)
+
 /-- closes `AllToRes (prog o inp)` goals built from the builders -/
 macro "all_to_res" : tactic =>
   `(tactic| repeat' (first
       | exact allToRes_nil | exact allToRes_xferAll _ _ _ | exact allToRes_readAll _ _ | exact allToRes_callAll _ _ _
       | exact allToRes_deriveEach _ _ | exact allToRes_whole _ _ _ | exact allToRes_reverseInPlace _ _
-      | exact allToRes_gather _ _ _
+      | exact allToRes_gather _ _ _ | exact allToRes_zipCall2 _ _ _ | exact allToRes_freshRange _ | exact allToRes_callAt _ _ _
       | exact allToRes_singleton_res _ (fun d hd => by cases hd; rfl)
       | apply allToRes_append | apply allToRes_ite | apply allToRes_cons (fun d hd => by cases hd; rfl)))
 
@@ -97,6 +110,18 @@ theorem covers_whole (a n : Nat) (d : Dest) : Covers a n (whole true a n d) := b
 
 theorem covers_steal (a n : Nat) (d : Dest) : Covers a n [.steal a d] :=
   fun i hi => ⟨.steal a d, by simp, rfl⟩
+
+theorem covers_zipCall2_left {n m : Nat} (rv1 : Bool) (d : Dest) (h : n ≤ m) : Covers 0 n (zipCall2 true rv1 m d) := by
+  intro i hi
+  refine ⟨.xfer 0 i .move d, ?_, ⟨rfl, rfl⟩⟩
+  simp only [zipCall2, List.mem_flatMap, List.mem_range]
+  exact ⟨i, by omega, by simp [callAt]⟩
+
+theorem covers_zipCall2_right {n m : Nat} (rv0 : Bool) (d : Dest) (h : n ≤ m) : Covers 1 n (zipCall2 rv0 true m d) := by
+  intro i hi
+  refine ⟨.xfer 1 i .move d, ?_, ⟨rfl, rfl⟩⟩
+  simp only [zipCall2, List.mem_flatMap, List.mem_range]
+  exact ⟨i, by omega, by simp [callAt]⟩
 
 theorem covers_zero (a : Nat) (p : List Instr) : Covers a 0 p := fun i hi => absurd hi (Nat.not_lt_zero i)
 
@@ -142,6 +167,8 @@ macro_rules
       | exact covers_callAll _ _ _
       | exact covers_whole _ _ _
       | exact covers_steal _ _ _
+      | exact covers_zipCall2_left _ _ (Nat.le_refl _)
+      | exact covers_zipCall2_right _ _ (Nat.le_refl _)
       | (apply covers_left; covers_tac)
       | (apply covers_right; covers_tac)
       | (apply covers_cons; covers_tac))
@@ -158,22 +185,56 @@ theorem covers_head_one (a : Nat) {n : Nat} (d : Dest) (q : List Instr) (h : n =
 
 theorem arg_lt_of_rv {inp : Input} {a : Nat} (h : inp.cat a = some .rv) : a < inp.args.length := cat_lt inp a _ h
 
-theorem prog_covers (o : Op) (inp : Input) (a : Nat) (hw : wf o inp = true) (hk : keeps o inp a = true)
+/-- the registry in chunks (one `Covers` theorem per chunk keeps every declaration small): 0 = the first round, 1.. = extension rounds -/
+def chunk : Op → Nat
+  | .tupInvoke | .tupApply2 | .tupFromArray | .tupMake2 | .tupInit | .arrApply2 | .arrInit | .arrMake2 | .recCtor2 | .recInit
+  | .optMake | .optCtor | .optAssign | .optToException | .optMakeIf | .optMaybe | .optMaybeVoid | .optMaybeMulti2 | .optMaybeVoidMulti2
+  | .optCopyValue
+  | .eithMakeSuccess | .eithMakeFailure | .eithCtor | .eithConstruct | .eithTryCall | .eithToException | .eithErrorFromOptional
+  | .eithSequenceError | .eithLoop | .varCtor => 1
+  | .varMatch | .varApply | .varApply2 | .varToOptional | .tupMap | .tupPushBack | .tupConcat | .arrMap | .arrPushBack | .arrJoin2
+  | .arrJoin3 | .arrFromRange | .recMap | .recPermute | .recMultiplyDisjoint | .contMake | .gridMap | .gridApply2 | .gridResize
+  | .treeCtor | .treePushValue | .treePushTree | .treeRelease | .treeMap | .optsFlag | .optsOption | .parseSequence
+  | .parseRepetition => 2
+  | .algFindOpt | .algIndexOf | .algContains | .algFindIfOpt | .algFindByOpt | .algGenerateN
+  | .algMapIteration | .algMapIterationSecond | .algSeqIteration
+  | .contInsert | .contSetUnion | .contSetDifference | .contSetIntersection | .contMapValuesCopy
+  | .contAtOptional | .contMaybeBack | .contMaybeFront | .contFindOptMapped | .contIndexMapGet
+  | .treeCtorTree | .treeCtorChildren | .treeAssign | .treeSelfAssign | .treeSetValue
+  | .treePushFrontValue | .treeInsertValue | .treePushFrontTree | .treeInsertTree | .treePopBack | .treePopFront
+  | .treeErase | .treeEraseRange | .treeClear | .treeSort
+  | .gridCtorFn | .gridCtorValue | .gridCtorRows2 | .gridStaticRow2 | .gridCtorGrid | .gridAssign | .gridSelfAssign | .gridFill
+  | .treeSwap | .treeSortPred | .joinSelf | .arrJoinSelf | .tupConcatSelf | .optCombineSelf
+  | .algMapList | .algMapArr | .algMapTup | .algLoopBreakTuple | .recSet | .algRemoveIf | .algRemove | .algUnique | .algUniqueIf | .algSeqIterationVec
+  | .parseAlt | .parseOpt | .parseConvert | .parseAsStruct | .parseSeparator | .parseList | .parseRepPlus
+  | .optsArgument | .optsOptional | .optsProduct | .optsMany | .optsSum => 3
+  | _ => 0
+
+/-- the common part of the `Covers` proofs: after `cases o`, goals of other chunks are closed, the value categories are substituted
+and the builders' covering lemmas tried; what is left is closed per operation -/
+syntax "covers_script" : tactic
+set_option hygiene false in
+macro_rules
+  | `(tactic| covers_script) => `(tactic| (
+      first
+      | (exfalso; revert hc; decide)
+      | (simp only [keeps, Bool.false_eq_true] at hk <;> simp only [shapeOk, Bool.and_eq_true, beq_iff_eq] at hs <;>
+         (have h3 : a = 0 ∨ a = 1 ∨ a = 2 := by omega
+          rcases h3 with rfl | rfl | rfl <;> simp only [prog, hr, hmv, fwd_true, hk, if_true] <;>
+           first
+           | covers_tac
+           | (exfalso; omega)
+           | (exfalso; simp at hk; done)
+           | (split <;> first | covers_tac | exact covers_of_zero _ _ (by assumption))
+           | skip))))
+
+theorem prog_covers_0 (o : Op) (inp : Input) (a : Nat) (hc : chunk o = 0) (hw : wf o inp = true) (hk : keeps o inp a = true)
     (ha : inp.cat a = some .rv) : Covers a (inp.size a) (prog o inp) := by
   have hr : inp.isRv a = true := (isRv_iff inp a).2 ha
   have hlt := arg_lt_of_rv ha
   have hmv : inp.isMv a = true := by simp [Input.isMv, ha]
   have hs := shape_of_wf hw
-  cases o <;> simp only [keeps, Bool.false_eq_true] at hk <;> simp only [shapeOk, Bool.and_eq_true, beq_iff_eq] at hs
-  all_goals
-    have h3 : a = 0 ∨ a = 1 ∨ a = 2 := by omega
-    rcases h3 with rfl | rfl | rfl <;> simp only [prog, hr, hmv, fwd_true, hk, if_true] <;>
-      first
-      | covers_tac
-      | (exfalso; omega)
-      | (exfalso; simp at hk; done)
-      | (split <;> first | covers_tac | exact covers_of_zero _ _ (by assumption))
-      | skip
+  cases o <;> covers_script
   case fold =>
     obtain ⟨⟨⟨⟨_, _⟩, _⟩, hn1⟩, _⟩ := hs
     exact covers_head_one _ _ _ hn1
@@ -188,14 +249,14 @@ theorem prog_covers (o : Op) (inp : Input) (a : Nat) (hw : wf o inp = true) (hk 
     simp only [beq_iff_eq] at hk
     simp only [hk, if_true]
     covers_tac
-  case arrFromRange =>
-    simp only [beq_iff_eq] at hk
-    simp only [hk, if_true]
-    covers_tac
-  case recPermute =>
-    simp only [decide_eq_true_eq, List.all_eq_true] at hs
-    obtain ⟨⟨⟨⟨_, _⟩, hlen⟩, hnd⟩, hb⟩ := hs
-    exact covers_gather 0 _ _ _ hnd hlen (fun i hi => by simpa using hb i hi)
+  case optApply2 =>
+    simp only [Bool.and_eq_true, beq_iff_eq] at hk
+    simp only [hk.1, hk.2]
+    exact covers_zipCall2_left _ _ (by omega)
+  case optApply2 =>
+    simp only [Bool.and_eq_true, beq_iff_eq] at hk
+    simp only [hk.1, hk.2]
+    exact covers_zipCall2_right _ _ (by omega)
   case eithSequence =>
     split
     · rename_i k hfind
@@ -206,5 +267,92 @@ theorem prog_covers (o : Op) (inp : Input) (a : Nat) (hw : wf o inp = true) (hk 
       omega
     · covers_tac
 
+
+theorem prog_covers_1 (o : Op) (inp : Input) (a : Nat) (hc : chunk o = 1) (hw : wf o inp = true) (hk : keeps o inp a = true)
+    (ha : inp.cat a = some .rv) : Covers a (inp.size a) (prog o inp) := by
+  have hr : inp.isRv a = true := (isRv_iff inp a).2 ha
+  have hlt := arg_lt_of_rv ha
+  have hmv : inp.isMv a = true := by simp [Input.isMv, ha]
+  have hs := shape_of_wf hw
+  cases o <;> covers_script
+  case arrApply2 => exact covers_zipCall2_right _ _ (by omega)
+  case optMaybeMulti2 =>
+    simp only [Bool.and_eq_true, beq_iff_eq] at hk
+    simp only [hk.1, hk.2]
+    exact covers_zipCall2_left _ _ (by omega)
+  case optMaybeMulti2 =>
+    simp only [Bool.and_eq_true, beq_iff_eq] at hk
+    simp only [hk.1, hk.2]
+    exact covers_zipCall2_right _ _ (by omega)
+  case optMaybeVoidMulti2 =>
+    simp only [Bool.and_eq_true, beq_iff_eq] at hk
+    simp only [hk.1, hk.2]
+    exact covers_zipCall2_left _ _ (by omega)
+  case optMaybeVoidMulti2 =>
+    simp only [Bool.and_eq_true, beq_iff_eq] at hk
+    simp only [hk.1, hk.2]
+    exact covers_zipCall2_right _ _ (by omega)
+
+theorem prog_covers_2 (o : Op) (inp : Input) (a : Nat) (hc : chunk o = 2) (hw : wf o inp = true) (hk : keeps o inp a = true)
+    (ha : inp.cat a = some .rv) : Covers a (inp.size a) (prog o inp) := by
+  have hr : inp.isRv a = true := (isRv_iff inp a).2 ha
+  have hlt := arg_lt_of_rv ha
+  have hmv : inp.isMv a = true := by simp [Input.isMv, ha]
+  have hs := shape_of_wf hw
+  cases o <;> covers_script
+  case arrFromRange =>
+    simp only [beq_iff_eq] at hk
+    simp only [hk, if_true]
+    covers_tac
+  case recPermute =>
+    simp only [decide_eq_true_eq, List.all_eq_true] at hs
+    obtain ⟨⟨⟨⟨_, _⟩, hlen⟩, hnd⟩, hb⟩ := hs
+    exact covers_gather 0 _ _ _ hnd hlen (fun i hi => by simpa using hb i hi)
+  case varApply2 => exact covers_zipCall2_left _ _ (by omega)
+  case varApply2 => exact covers_zipCall2_right _ _ (by omega)
+  case gridApply2 =>
+    simp only [Bool.and_eq_true, beq_iff_eq] at hk
+    rw [if_pos hk]
+    exact covers_zipCall2_left _ _ (Nat.le_refl _)
+  case gridApply2 =>
+    simp only [Bool.and_eq_true, beq_iff_eq] at hk
+    rw [if_pos hk]
+    refine covers_zipCall2_right _ _ ?_
+    rw [← hs.1.2, ← hs.2, hk.1, hk.2]
+    exact Nat.le_refl _
+
+theorem prog_covers_3 (o : Op) (inp : Input) (a : Nat) (hc : chunk o = 3) (hw : wf o inp = true) (hk : keeps o inp a = true)
+    (ha : inp.cat a = some .rv) : Covers a (inp.size a) (prog o inp) := by
+  have hr : inp.isRv a = true := (isRv_iff inp a).2 ha
+  have hlt := arg_lt_of_rv ha
+  have hmv : inp.isMv a = true := by simp [Input.isMv, ha]
+  have hs := shape_of_wf hw
+  cases o <;> covers_script
+  case treeCtorTree => exact covers_head_one _ _ _ hs.1.2
+  case treeCtorTree =>
+    have hr0 : inp.isRv 0 = true := by
+      have := hs.1.1.2
+      simp only [Input.isRv] at hr ⊢
+      rw [this]; exact hr
+    rw [if_pos hr0]
+    exact covers_cons _ (covers_steal _ _ _)
+  case treeCtorChildren => exact covers_head_one _ _ _ hs.1.2
+  case treeCtorChildren =>
+    have hr0 : inp.isRv 0 = true := by
+      obtain ⟨c, hc0, hm⟩ := (catIn_iff inp 0 _).1 hs.1.1.1.2
+      simp at hm; subst hm
+      exact (isRv_iff inp 0).2 hc0
+    rw [if_pos hr0]
+    exact covers_cons _ (covers_steal _ _ _)
+
+theorem chunk_le (o : Op) : chunk o = 0 ∨ chunk o = 1 ∨ chunk o = 2 ∨ chunk o = 3 := by cases o <;> decide
+
+theorem prog_covers (o : Op) (inp : Input) (a : Nat) (hw : wf o inp = true) (hk : keeps o inp a = true)
+    (ha : inp.cat a = some .rv) : Covers a (inp.size a) (prog o inp) := by
+  rcases chunk_le o with hc | hc | hc | hc
+  · exact prog_covers_0 o inp a hc hw hk ha
+  · exact prog_covers_1 o inp a hc hw hk ha
+  · exact prog_covers_2 o inp a hc hw hk ha
+  · exact prog_covers_3 o inp a hc hw hk ha
 
 end Fcppt.C05
